@@ -464,8 +464,6 @@ def eval_pair(case_dec, rng):
     if out:
         return out
     ncall, acall, x0, y0, F = prep
-    if case_dec.get("point", "regular") != "regular":
-        return Outcome("not_judged", "kink_point")
     from autograd.core import make_jvp, make_vjp
 
     domain = case_dec.get("domain")
